@@ -44,7 +44,7 @@ K1_C05 = ['normalize', 'timerange', 'Model.memoize', 'Model.equation', 'SdSimula
 
 K1_C08 = ['SdElement.generate_function', 'SdElement.Element.equation.setter', 'SdElement.Stock.equation.setter',
           'SdElement.Flow.equation.setter', 'SdElement.Constant.equation.setter', 'SdElement.Stock.initial_value.setter',
-          'Scenario.reset_cache', 'Model.reset_cache', 'Model.memoize']
+          'Scenario.reset_cache', 'Model.reset_cache', 'Model.memoize', 'SdSimulation.change_equation', 'SdSimulation.change_points']
 
 K1_C07 = ['ScenarioManagerSd.add_scenarios', 'SdScenario.__init__', 'SdScenario.configure_settings', 'SdSimulation.__init__', 'SdSimulation.change_runspecs',
           'SdSimulation.change_equation', 'SdSimulation.change_points']
@@ -157,7 +157,7 @@ PROPS = {
         mods=['contracts.c07_scenarios'], k1=['ScenarioManagerSd.add_scenarios', 'SdSimulation.change_equation', 'SdSimulation.change_points',
                                              'SdSimulation.change_runspecs', 'SdScenario.__init__', 'SdRunner.run_scenario_step'],
         level='proof', engines=['contracts.c06_clone'],
-        harness='verif/native/c09_harness.py', harness_budget=(25, 120),
+        harness='verif/native/c09_harness.py', harness_budget=(25, 120), always_harness=True,
         explanation='separation + frames: get_cloned_model returns a new Model that installs none of the base model\'s mutable containers (structural obligations '
                     'from the AST); change_equation / change_points / change_runspecs write only the fields of their own simulation model (frame proved); '
                     'the step runner applies the settings of a step only to the scenario they address and writes no other scenario\'s model (frame proved)',
@@ -165,7 +165,7 @@ PROPS = {
         not_decided=['not decided: "results equal those of a freshly built model" as a relation (C07 spine + harness)',
                      'not decided: sharing through mutable default arguments between managers; arrayed elements share _elements with the base element']),
     'C08': dict(
-        mods=['contracts.c08_memo', 'contracts.c05_grid'], k1=K1_C08, level='proof',
+        mods=['contracts.c08_memo', 'contracts.c05_grid', 'contracts.c07_scenarios'], k1=K1_C08, level='proof',
         harness='verif/native/c08_harness.py', harness_budget=(15, 90),
         explanation='cache-invalidation postconditions: after Element/Stock/Flow/Constant.equation setters, Stock.initial_value setter, '
                     'Model.reset_cache and SimulationScenario.reset_cache EVERY memo table is empty; generate_function installs the new function and '
@@ -190,12 +190,16 @@ PROPS = {
         not_decided=['not decided: IEEE-754 rounding itself (a full error-bound proof of timerange was judged too expensive, DESIGN 2.2.6)',
                      'not decided deductively: Element.plot (pandas comprehension) -- covered by the native harness only']),
     'C01': dict(
-        mods=['contracts.c05_grid'], k1=['Model.memoize', 'Model.equation'], level='proof', engines=['contracts.c01_euler'],
+        mods=['contracts.c08_memo', 'contracts.c05_grid'],
+        k1=['Model.memoize', 'Model.equation', 'SdElement.generate_function', 'SdElement.Element.equation.setter', 'SdElement.Stock.equation.setter',
+            'SdElement.Flow.equation.setter', 'SdElement.Constant.equation.setter', 'SdElement.Stock.initial_value.setter', 'Model.reset_cache'],
+        level='proof', engines=['contracts.c01_euler'],
         harness='verif/native/c01_harness.py', harness_budget=(20, 120),
         explanation='K2 generator contracts: the text built by Stock/Flow.build_function_string and by the term() of every operator and built-in '
                     '(step, pulse, delay, lookup, dt/starttime/stoptime, min/max/abs/..., If/And/Or/Not, arithmetic) denotes the Euler spec expression of '
                     'the element with every operand read at the specified time; Smooth/Trend constructors build average\' = (input-average)/T as a biflow '
-                    'into a stock; K1: Model.memoize is compute-once under the normalised key. Meta-lemma (paper): Element.__call__(t) == V(e,t)',
+                    'into a stock and report the average / (input-average)/(average*T); K1: Model.memoize is compute-once under the normalised key and every '
+                    'modelling-API setter empties the memo, so a re-parameterised model reports the Euler solution of its FINAL definitions. Meta-lemma (paper): Element.__call__(t) == V(e,t)',
         assumptions=['meta-lemma on paper (induction over (grid index, acyclic dependency order)); numpy / interp1d trusted; Model._lookup (numpy) assumed: clamped linear interpolation'],
         not_decided=['not decided: stochastic built-ins; arrayed elements (C10); float rounding of dt*flow (spec and code use the same expression tree)']),
     'C02': dict(
